@@ -62,6 +62,7 @@ BASES = {"zip-mbox": "/mixed.zip/inbox", "zip-mbox-msg": "/mixed.zip/inbox|/MBOX
          "mbox": "/mail.mbox", "script": "/script.sh", "pyg": "/hello.pyg", "missing": "/nope",
          "linkzip": "/linkzip.zip/evil", "linkzip-abs": "/linkzip.zip/abs", "maildir": "/md",
          # the server's own files inside the tree (written by an earlier listing of the same run)
+         "linkclimb": "/linkclimb", "linkclimb2": "/linkclimb",
          "cachefile": "/docs/.cache.pygopherd.dir", "cachefile-root": "/.cache.pygopherd.dir",
          "zipcache": "/.cache.pygopherd.zip3.arc.zip.dat", "dir2": "/docs", "dir-root": "/"}
 URL_PROTOS = ["http", "wap", "gemini", "spartan", "https", "head"]
@@ -250,6 +251,17 @@ def _build_root(S):
                      b"0abs\t/../secret.txt\n0fine\tok.txt\n0a url-like selector without a host\tURL:x\nhweb\tURL:http://example.org/\n"
                      b"1sibling by prefix\tX/secret.txt\n", sched.EPOCH - 5000)
     simfs.write_file(os.path.join(root, "climbmap", "ok.txt"), b"ok\n", sched.EPOCH - 5000)
+    # UMN link files whose blocks climb (with and without Type/Host/Port)
+    os.makedirs(os.path.join(root, "linkclimb"))
+    simfs.write_file(os.path.join(root, "linkclimb", ".Links"),
+                     b"Name=minutes\nPath=/../outside/secret.txt\n\nName=relative\nPath=./../../secret.txt\n\n"
+                     b"Name=typed\nType=0\nPath=/../secret.txt\n\nName=sibling\nPath=../rootX/secret.txt\n\n"
+                     b"Name=fine\nPath=./ok.txt\n", sched.EPOCH - 5000)
+    simfs.write_file(os.path.join(root, "linkclimb", "ok.txt"), b"ok\n", sched.EPOCH - 5000)
+    simfs.real_utime(os.path.join(root, "linkclimb"), (sched.EPOCH - 5000, sched.EPOCH - 5000))
+    # a regular (empty, recent) file under the name of an archive's index cache: with the installed dbm back end
+    # the server never writes that name itself; it is what makes the "load the saved index" path run
+    simfs.write_file(os.path.join(root, ".cache.pygopherd.zip3.arc.zip"), b"", sched.EPOCH - 10)
     simfs.real_utime(os.path.join(root, "climbmap"), (sched.EPOCH - 5000, sched.EPOCH - 5000))
     simfs.real_utime(root, (sched.EPOCH - 5000, sched.EPOCH - 5000))
     return root
